@@ -1,4 +1,4 @@
-import Scion.Proofs.Pool
+import Scion.Proofs.PoolObs
 import Scion.Gen.Pool
 /-! # C14 — every packet buffer has exactly one owner at a time
 
@@ -131,6 +131,40 @@ theorem no_leak_unconditional_fails : ¬ NoLeakUnconditional := by
     rw [hp]; exact Or.inr rfl)
   have hl := this.length_eq
   simp [holds] at hl
+
+/-! ### What the sockets see (the acceptor used for trace validation) -/
+
+/-- **The acceptor accepts every behaviour of the protocol.** For every run of the model the
+sequence of socket-level observations it gives rise to (buffers registered for `ReadBatch`,
+filled, presented to `WriteBatch`, written or dropped, released at stop) is accepted by
+`obsStep`, and the acceptor's book-keeping agrees with the model state afterwards. So a rejected
+trace of the real pipeline is not a behaviour of the protocol. -/
+theorem socket_observations_accepted (n : Nat) (es : List Ev) (s : State)
+    (h : run (init n) es = some s) :
+    ∃ σ, obsRun [] (es.flatMap Ev.obs) = .ok σ ∧ Agree s.holdings σ := by
+  apply run_obs es (init n) s [] _ _ h
+  · rw [bufs_init]; exact List.nodup_range
+  · intro p hp
+    simp only [init, List.mem_map] at hp
+    obtain ⟨b, _, rfl⟩ := hp
+    rfl
+
+/-- **… and rejects a second holder.** While a receiver has a buffer registered, the acceptor
+rejects the pool handing it to any receiver and any sender presenting it; while a sender holds
+it, the pool handing it out or another sender presenting it. -/
+theorem acceptor_rejects_second_holder (σ : ObsState) (b : Buf) (c : Nat) :
+    (seen σ b = .rx c → ∀ c', (obsStep σ (.hold c' b)).isOk = false ∧
+        (obsStep σ (.present c' b)).isOk = false) ∧
+    (seen σ b = .tx c → ∀ c', (obsStep σ (.hold c' b)).isOk = false ∧
+        (c' ≠ c → (obsStep σ (.present c' b)).isOk = false)) := by
+  constructor
+  · intro h c'
+    simp [obsStep, h, Except.isOk, Except.toBool]
+  · intro h c'
+    refine ⟨by simp [obsStep, h, Except.isOk, Except.toBool], fun hne => ?_⟩
+    simp only [obsStep, h]
+    rw [if_neg (fun e => hne e.symm)]
+    rfl
 
 /-! ### Batch bookkeeping of `udpConnection.send` and `receive` -/
 
